@@ -1243,3 +1243,52 @@ func c03R24(ic *IC, r *Report) {
 		r.Errorf("R03.24: only %d constDecl cases running the early compilation found (gta and the pre-order pass of cfg expected)", n)
 	}
 }
+
+func init() {
+	ruleText["R03.25"] = "no exit of the type rule of binary operators bypasses the agreement of the operand types: in typecheck.binaryExpr every `return nil` that lies inside the switch over the operator (an early acceptance for some operator, such as the constant quotient) is preceded in its block by a test of the operand types against each other (equals) that reports an error - the general test at the end of the function is not reached from there (= R12.39)"
+}
+
+// c03R25: D146. const a int = 6; const b int8 = 2; a / b was accepted and gave 3.
+func c03R25(ic *IC, r *Report, rule string) {
+	info := ic.Info
+	be := ic.fn(r, "typecheck.binaryExpr")
+	if be == nil {
+		return
+	}
+	n := 0
+	ast.Inspect(be.Decl.Body, func(q ast.Node) bool {
+		sw, ok := q.(*ast.SwitchStmt)
+		if !ok {
+			return true
+		}
+		ast.Inspect(sw.Body, func(z ast.Node) bool {
+			blk, ok := z.(*ast.BlockStmt)
+			if !ok {
+				return true
+			}
+			for i, st := range blk.List {
+				rs, ok := st.(*ast.ReturnStmt)
+				if !ok || len(rs.Results) != 1 {
+					continue
+				}
+				if id := identOf(rs.Results[0]); id == nil || id.Name != "nil" {
+					continue
+				}
+				n++
+				checked := false
+				for _, prev := range blk.List[:i] {
+					if ifs, ok := prev.(*ast.IfStmt); ok && len(callsIn(info, ifs.Cond, true, "interp.itype.equals")) > 0 && len(callsIn(info, ifs.Body, true, "interp.node.cfgErrorf")) > 0 {
+						checked = true
+					}
+				}
+				r.Check(checked, rule, fmt.Sprintf("typecheck.binaryExpr/early-acceptance#%d/operand-types-agree", n), ic.pos(rs.Pos()), "the early acceptance is preceded by the agreement test of the operand types",
+					"typecheck.binaryExpr accepts the expression at "+ic.pos(rs.Pos())+" without having compared the types of its operands: the test at the end of the function (mismatched types) is not reached, so `const a int = 6; const b int8 = 2; a / b` is accepted and gives 3, and `const a int = 4; const b float64 = 2; a / b` gives 2 (compiled Go: invalid operation: mismatched types)")
+			}
+			return true
+		})
+		return false
+	})
+	if n == 0 {
+		r.Errorf("%s: no early acceptance found in the operator switch of typecheck.binaryExpr", rule)
+	}
+}
